@@ -70,10 +70,10 @@ func genQuota(t *rapid.T) QuotaCase {
 			u.PreloadKB = 50000
 		}
 		for j := rapid.IntRange(0, 3).Draw(t, "nUp"); j > 0; j-- {
-			u.Up = append(u.Up, rapid.SampledFrom([]int{1, 100, 1500, 20000}).Draw(t, "up"))
+			u.Up = append(u.Up, rapid.SampledFrom([]int{1, 100, 1500, 20000, 32768, 32769, 100000, 262144}).Draw(t, "up"))
 		}
 		for j := rapid.IntRange(0, 3).Draw(t, "nDown"); j > 0; j-- {
-			u.Down = append(u.Down, rapid.SampledFrom([]int{1, 100, 1500, 20000}).Draw(t, "down"))
+			u.Down = append(u.Down, rapid.SampledFrom([]int{1, 100, 1500, 20000, 32768, 32769, 100000, 262144}).Draw(t, "down"))
 		}
 		c.Users = append(c.Users, u)
 	}
@@ -334,6 +334,7 @@ type CrossCase struct {
 	MarginKB  int    `json:"marginKB"` // the user starts this far below the allowance
 	UpKB      int    `json:"upKB"`
 	DownKB    int    `json:"downKB"`
+	Chunk     int    `json:"chunk,omitempty"` // size of the applications' Write calls (default 32768; larger ones span several protocol data units)
 	KeepOpen  bool   `json:"keepOpen,omitempty"` // the first session stays open while the second is dialled
 	Salt      uint64 `json:"salt"`
 }
@@ -355,6 +356,7 @@ func genCross(t *rapid.T) CrossCase {
 	total := c.MarginKB + 1024 + rapid.SampledFrom([]int{40, 200}).Draw(t, "extra")
 	c.UpKB = total * rapid.SampledFrom([]int{10, 50, 90}).Draw(t, "upShare") / 100
 	c.DownKB = total - c.UpKB
+	c.Chunk = rapid.SampledFrom([]int{32768, 32768, 65536, 100000, 262144}).Draw(t, "chunk")
 	return c
 }
 
@@ -372,10 +374,13 @@ func preloadUpload(user string, kib int64, age time.Duration) error {
 	return loadDump(allMetrics(fmt.Sprintf(metrics.UserMetricGroupFormat, user), metrics.ToMetricPB(m)))
 }
 
-func chunks(totalKB int) []int {
+func chunks(totalKB, chunk int) []int {
 	var ws []int
 	for rem := totalKB * 1024; rem > 0; {
-		w := 32768
+		w := chunk
+		if w <= 0 {
+			w = 32768
+		}
 		if rem < w {
 			w = rem
 		}
@@ -409,7 +414,7 @@ func propCross(c CrossCase) (o pbt.Outcome) {
 	o.Label("keepOpen=%v", c.KeepOpen)
 
 	// first session: within the allowance when it opens
-	res := e2e.RunTransfer(env, []e2e.SessProg{{Up: e2e.DirProg{Writes: chunks(c.UpKB)}, Down: e2e.DirProg{Writes: chunks(c.DownKB)}}},
+	res := e2e.RunTransfer(env, []e2e.SessProg{{Up: e2e.DirProg{Writes: chunks(c.UpKB, c.Chunk)}, Down: e2e.DirProg{Writes: chunks(c.DownKB, c.Chunk)}}},
 		e2e.TransferOpts{Salt: c.Salt, StallAfter: 30 * time.Second, MaxWall: 90 * time.Second, KeepOpen: c.KeepOpen})
 	s := res.Sessions[0]
 	if s.OpenErr != "" || !s.Up.DoneReading || !s.Down.DoneReading {
